@@ -5,6 +5,7 @@ import (
 	"strings"
 	"text/scanner"
 	"unicode"
+	"unicode/utf8"
 )
 
 // Note:
@@ -270,7 +271,7 @@ func ValidatePathGlob(pat string) []InvalidGlobPattern {
 	}
 	if strings.HasSuffix(pat, " ") {
 		return []InvalidGlobPattern{
-			{"path value must not end with spaces", len(pat)},
+			{"path value must not end with spaces", utf8.RuneCountInString(pat)}, // Column counts characters as the scanner does
 		}
 	}
 	return validateGlob(pat, false)
